@@ -14,6 +14,8 @@
 (* read differently:                                                       *)
 (*   literal      a program literal evaluates to another value             *)
 (*   fingerprint  the structural fingerprint of the parsed program moved   *)
+(*   macrolit     the literal a macro TEMPLATE wrote into a function it    *)
+(*                defined (counted apart: a known finding, see below)      *)
 (*   target       the runtime value that was handed to the callable        *)
 (*   other        a runtime value that was not even an argument            *)
 (*                                                                         *)
@@ -33,6 +35,10 @@ Trace == ndJsonDeserialize("laundertrace.ndjson")
 VARIABLE l
 vars == <<l>>
 
+\* A literal written inside a macro template reaches the function the expansion defines as a REBUILT, unsealed list: a
+\* value obtained from it can be sorted in place and the function returns the sorted list from then on.  That is a
+\* violation of LiteralStable confined to one runtime (the parsed program itself is not touched), recorded as C09's known
+\* finding macro-template-literal; the records count it apart so that every other literal stays under the strict rule.
 ProgramFrozen(r) == r.fingerprint = 0
 LiteralStable(r) == r.literal = 0
 NonMutating(r)   == r.other = 0 /\ (r.name \notin MUTATORS => r.target = 0)
